@@ -101,6 +101,23 @@ def poly_judge(c):
         want = any(a in G for a in args)
         if (o["status"] == "YES") != want:
             return "bad poly-grounded-status-%s-expected-%s" % (o["status"], "YES" if want else "NO")
+    # statuses decided by the grounded extension alone, at any size: an argument of G is in every complete extension,
+    # an argument defeated by G in none; when G is stable it is the only extension of every semantics
+    if o["kind"] == "acc" and args and sem != "GR":
+        g_stable = not (ids - G - D)
+        some_in_g, all_in_d = any(a in G for a in args), all(a in D for a in args)
+        want = None
+        if g_stable:
+            want = some_in_g
+        elif sem in ("CO", "PR", "ID", "SST"):
+            want = True if some_in_g else (False if all_in_d else None)
+        elif sem == "ST":
+            if q == "DS" and some_in_g:
+                want = True
+            if q == "DC" and all_in_d:
+                want = False
+        if want is not None and (o["status"] == "YES") != want:
+            return "bad poly-status-%s-decided-by-the-grounded-extension-expected-%s" % (o["status"], "YES" if want else "NO")
     e = o.get("ext")
     if e is None:
         return None
